@@ -119,6 +119,7 @@ def run(ctx, name, kind, **kw):
         codes = S.codes_of(rfc6979) + S.codes_of(ecdsa.util, {"number_to_string", "number_to_string_crop", "orderlen", "bit_length"})
         S.concurrent_purity(ctx, codes, jobs, rng, kw["runs"])
         S.reentrant_purity(ctx, codes, jobs, rng, max(8, kw["runs"] // 10))
+        S.fault_purity(ctx, codes, jobs, rng, max(8, kw["runs"] // 10))
     elif kind == "curvevals":
         vals = []
         for c in lib.ALL_CURVES:
